@@ -507,9 +507,27 @@ def pairwise(iterable):
 
 
 try:
-    # prefer the faster numpy version of multi_dot
     # only included in recent-ish version of numpy
-    multi_dot = np.linalg.multi_dot
+    _np_multi_dot = np.linalg.multi_dot
+
+    def multi_dot(arrays):
+        """
+        Compute the dot product of two or more arrays in a single function call.
+
+        For more than three arrays `np.linalg.multi_dot` searches for the
+        cheapest multiplication order in a pure-python O(n^3) loop. For the
+        chains of equally sized (3, 3) or (4, 4) matrices it is used for here
+        every order costs the same and the search makes a chain of a few
+        hundred transforms take seconds so multiply longer chains in order.
+        """
+        arrays = list(arrays)
+        if len(arrays) <= 3:
+            return _np_multi_dot(arrays)
+        result = np.dot(arrays[0], arrays[1])
+        for i in arrays[2:]:
+            result = np.dot(result, i)
+        return result
+
 except AttributeError:
     log.debug("np.linalg.multi_dot not available, using fallback")
 
